@@ -683,4 +683,28 @@ theorem ex_sq_regular : RegularLags exSquare := by
     cases hcl
     have : ∀ p ∈ lagPairs exSquare, p.1.devLag = 12 ∧ p.2.devLag = 0 := by decide +kernel
     exact this (nx, pv) hpair
+/-! ### `uniq` from `SliceLayout`; what remains is `NoSkipLags` -/
+
+/-- (period, lag) is unique in a well-formed slice -/
+theorem uniq_of_layout {s : List Cell} (H : SliceLayout s) :
+    ∀ x ∈ s, ∀ y ∈ s, (x.ps, x.pe) = (y.ps, y.pe) → x.devLag = y.devLag → x = y := by
+  intro x hx y hy hp hl
+  obtain ⟨i, hi, rfl⟩ := List.getElem_of_mem hx
+  obtain ⟨j, hj, rfl⟩ := List.getElem_of_mem hy
+  rcases Nat.lt_trichotomy i j with h | h | h
+  · exact absurd hl (ne_of_lt (rows_lag_lt H h hj hp))
+  · subst h; rfl
+  · exact absurd hl.symm (ne_of_lt (rows_lag_lt H h hi hp.symm))
+
+/-- what remains of `RegularLags` beyond `SliceLayout` -/
+structure NoSkipLags (s : List Cell) : Prop where
+  noSkip : ∀ c ∈ s, ∀ prev,
+    (s.filter fun d => (d.ps, d.pe) == (c.ps, c.pe) && d.devLag < c.devLag).getLast? = some prev →
+    ∀ pl, (c.devLag, pl) ∈ (sortedLags s).tail.zip (sortedLags s) → pl = prev.devLag
+  clipEnds : ∀ l pl, (l, pl) ∈ (sortedLags s).tail.zip (sortedLags s) → ∀ cl, clipLags s pl l = .ok cl →
+    ∀ nx pv, (nx, pv) ∈ lagPairs cl → nx.devLag = l ∧ pv.devLag = pl
+
+theorem regular_of_layout {s : List Cell} (H : SliceLayout s) (N : NoSkipLags s) : RegularLags s :=
+  ⟨uniq_of_layout H, N.noSkip, N.clipEnds⟩
+theorem ex_sq_noskip : NoSkipLags exSquare := ⟨ex_sq_regular.noSkip, ex_sq_regular.clipEnds⟩
 end Bermuda.Resample
